@@ -11,7 +11,7 @@ import pathlib
 import sys
 
 sys.path.insert(0, str(pathlib.Path(__file__).resolve().parent))
-from _rb_common import COMMON, Bad, _if_tests, expect, find_method, prop, strip_doc, tr  # noqa: E402
+from _rb_common import COMMON, Bad, find_method, lean_prop, match, negate, prop, tr  # noqa: E402
 
 NAME = "RingBufferQuery"
 SOURCES = [
@@ -19,11 +19,12 @@ SOURCES = [
     "src/frequenz/sdk/timeseries/_moving_window.py",
 ]
 
+# Patterns: the normal form (`_rb_common.normalize`) of each modelled method, `HOLE_x` = translated on every run.
 SK_TII = """
 def to_internal_index(self, timestamp, allow_outside_range=False):
     timestamp = self.normalize_timestamp(timestamp)
     if not allow_outside_range and HOLE_outside:
-        raise IndexError(f'Requested timestamp {timestamp} is outside the range [{self._timestamp_oldest} - {self._timestamp_newest}]')
+        raise IndexError
     return self.wrap(round((timestamp - self._time_index_alignment).total_seconds() / self._sampling_period.total_seconds()))
 """
 
@@ -34,26 +35,28 @@ def wrap(self, index):
 
 SK_WINDOW = """
 def window(self, start, end, *, force_copy=True, fill_value=np.nan):
-    if fill_value is not None and (not force_copy):
-        raise ValueError('fill_value only supported for force_copy=True')
+    if not force_copy and fill_value is not None:
+        raise ValueError
     if self.count_covered() == 0:
-        return np.array([]) if isinstance(self._buffer, np.ndarray) else []
+        if isinstance(self._buffer, np.ndarray):
+            return np.array([])
+        return []
     if not isinstance(start, datetime) and (not isinstance(end, datetime)):
         start, end = self._to_covered_indices(start, end)
         start = self.get_timestamp(start)
         end = self.get_timestamp(end)
     if not isinstance(start, datetime) or not isinstance(end, datetime):
-        raise IndexError(f'start ({start}) and end ({end}) must both be either datetime or index.')
+        raise IndexError
     start = HOLE_clamp_s
     end = HOLE_clamp_e
-    if HOLE_empty:
-        return np.array([]) if isinstance(self._buffer, np.ndarray) else []
-    start_pos = self.to_internal_index(start)
-    end_pos = self.to_internal_index(end)
-    window = self._wrapped_buffer_window(self._buffer, start_pos, end_pos, force_copy)
-    if fill_value is not None:
-        window = self._fill_gaps(window, fill_value, HOLE_origin, self.gaps)
-    return window
+    if HOLE_nonempty:
+        window = self._wrapped_buffer_window(self._buffer, self.to_internal_index(start), self.to_internal_index(end), force_copy)
+        if fill_value is None:
+            return window
+        return self._fill_gaps(window, fill_value, HOLE_origin, self.gaps)
+    if isinstance(self._buffer, np.ndarray):
+        return np.array([])
+    return []
 """
 
 SK_COVERED_IDX = """
@@ -63,59 +66,55 @@ def _to_covered_indices(self, start, end=None):
 
 SK_GET_TS = """
 def get_timestamp(self, index):
-    if self.oldest_timestamp is None:
-        return None
-    if index < 0:
-        ref_ts = self.newest_timestamp + self._sampling_period
-    else:
-        ref_ts = self.oldest_timestamp
-    return ref_ts + index * self._sampling_period
+    if self.oldest_timestamp is not None:
+        if index < 0:
+            return self.newest_timestamp + self._sampling_period + index * self._sampling_period
+        return self.oldest_timestamp + index * self._sampling_period
 """
 
 SK_FILL = """
 def _fill_gaps(self, data, fill_value, oldest_timestamp, gaps):
     for gap in gaps:
-        end_index = HOLE_ei
-        start_index = HOLE_si
-        start_index = max(start_index, 0)
-        end_index = min(end_index, len(data))
-        if start_index < end_index:
+        end_index = min(HOLE_ei, len(data))
+        if max(HOLE_si, 0) < end_index:
             if isinstance(data, np.ndarray):
-                data[start_index:end_index] = fill_value
+                data[max(HOLE_si, 0):end_index] = fill_value
             elif isinstance(data, list):
-                data[start_index:end_index] = [fill_value] * (end_index - start_index)
+                data[max(HOLE_si, 0):end_index] = [fill_value] * (end_index - max(HOLE_si, 0))
     return data
 """
 
 SK_WRAPPED = """
 def _wrapped_buffer_window(buffer, start_pos, end_pos, force_copy=True):
-    if start_pos < end_pos:
-        arr = buffer[start_pos:end_pos]
-    else:
+    if force_copy:
+        if start_pos < end_pos:
+            return deepcopy(buffer[start_pos:end_pos])
         if isinstance(buffer, list):
             return buffer[start_pos:] + buffer[0:end_pos]
-        if end_pos > 0:
-            return np.concatenate((buffer[start_pos:], buffer[0:end_pos]))
-        arr = buffer[start_pos:]
-    if force_copy:
-        return deepcopy(arr)
-    return arr
+        if end_pos <= 0:
+            return deepcopy(buffer[start_pos:])
+        return np.concatenate((buffer[start_pos:], buffer[0:end_pos]))
+    if start_pos < end_pos:
+        return buffer[start_pos:end_pos]
+    if isinstance(buffer, list):
+        return buffer[start_pos:] + buffer[0:end_pos]
+    if end_pos <= 0:
+        return buffer[start_pos:]
+    return np.concatenate((buffer[start_pos:], buffer[0:end_pos]))
 """
 
 SK_OLDEST_TS = """
 def oldest_timestamp(self):
-    if self.count_valid() == 0:
-        return None
-    if self.is_missing(self.time_bound_oldest):
-        return min((g.end for g in self.gaps))
-    return self.time_bound_oldest
+    if self.count_valid() != 0:
+        if self.is_missing(self.time_bound_oldest):
+            return min((g.end for g in self.gaps))
+        return self.time_bound_oldest
 """
 
 SK_NEWEST_TS = """
 def newest_timestamp(self):
-    if self.count_valid() == 0:
-        return None
-    return self.time_bound_newest
+    if self.count_valid() != 0:
+        return self.time_bound_newest
 """
 
 SK_COVERED_RANGE = """
@@ -134,9 +133,9 @@ SK_COUNT_VALID = """
 def count_valid(self):
     if self._timestamp_newest == self._TIMESTAMP_MIN:
         return 0
-    sum_missing_entries = max(0, sum((HOLE_len for gap in self._gaps)))
     end_pos = self.to_internal_index(self._timestamp_newest)
     start_pos = self.to_internal_index(self._timestamp_oldest)
+    sum_missing_entries = max(0, sum((HOLE_len for gap in self._gaps)))
     if end_pos < start_pos:
         return HOLE_wrapped
     return HOLE_straight
@@ -145,109 +144,83 @@ def count_valid(self):
 SK_AT_PINNED = """
 def at(self, key):
     if self._buffer.count_valid() == 0:
-        raise IndexError('The buffer is empty.')
+        raise IndexError
     if isinstance(key, datetime):
         if HOLE_ts_out:
-            raise IndexError(f'Timestamp {key} is out of range [{self._buffer.oldest_timestamp}, {self._buffer.newest_timestamp}]')
+            raise IndexError
         return self._buffer[self._buffer.to_internal_index(key)]
-    if isinstance(key, int):
-        timestamp = self._buffer.get_timestamp(key)
-        return self._buffer[self._buffer.to_internal_index(timestamp)]
-    raise TypeError('Key has to be either a timestamp or an integer.')
+    if not isinstance(key, int):
+        raise TypeError
+    return self._buffer[self._buffer.to_internal_index(self._buffer.get_timestamp(key))]
 """
 
 SK_AT_FIXED = """
 def at(self, key):
     if self._buffer.count_valid() == 0:
-        raise IndexError('The buffer is empty.')
+        raise IndexError
     if isinstance(key, datetime):
         if HOLE_ts_out:
-            raise IndexError(f'Timestamp {key} is out of range [{self._buffer.oldest_timestamp}, {self._buffer.newest_timestamp}]')
-        timestamp = key
-    elif isinstance(key, int):
-        count_covered = self._buffer.count_covered()
-        if HOLE_idx_out:
-            raise IndexError(f'Index {key} is out of range [-{count_covered}, {count_covered})')
-        index_timestamp = self._buffer.get_timestamp(key)
-        timestamp = index_timestamp
-    else:
-        raise TypeError('Key has to be either a timestamp or an integer.')
+            raise IndexError
+        if self._buffer.is_missing(self._buffer.normalize_timestamp(key)):
+            return np.nan
+        return self._buffer[self._buffer.to_internal_index(key)]
+    if not isinstance(key, int):
+        raise TypeError
+    count_covered = self._buffer.count_covered()
+    if HOLE_idx_out:
+        raise IndexError
+    timestamp = self._buffer.get_timestamp(key)
     if self._buffer.is_missing(self._buffer.normalize_timestamp(timestamp)):
         return np.nan
     return self._buffer[self._buffer.to_internal_index(timestamp)]
 """
 
 
-def generate(repo: pathlib.Path) -> str:  # noqa: C901  (one linear recipe)
+def generate(repo: pathlib.Path) -> str:
     buf = ast.parse((repo / SOURCES[0]).read_text())
     mw = ast.parse((repo / SOURCES[1]).read_text())
     out: list[str] = []
 
     def emit_prop(name: str, params: str, body: str, doc: str) -> None:
-        out.append(f"/-- {doc} -/\nabbrev {name} {params} : Prop := {body}\n")
+        out.append(lean_prop(name, params, body, doc))
 
     def emit_int(name: str, params: str, body: str, doc: str) -> None:
         out.append(f"/-- {doc} -/\ndef {name} {params} : Int := {body}\n")
 
+    def holes(name: str, pattern: str) -> dict[str, ast.expr]:
+        return match(find_method(buf, "OrderedRingBuffer", name), [pattern], name)[1]
+
     # ---- to_internal_index / wrap
-    fn = find_method(buf, "OrderedRingBuffer", "to_internal_index", like=[SK_TII])
-    t = _if_tests(strip_doc(fn))[0].test
-    if not (isinstance(t, ast.BoolOp) and isinstance(t.op, ast.And) and len(t.values) == 2):
-        raise Bad("to_internal_index: range test")
-    expect(fn, {id(t.values[1]): "outside"}, [SK_TII], "to_internal_index")
-    emit_prop("tiiOutside", "(timestamp selfNewest oldest period : Int)", prop(t.values[1], COMMON),
+    h = holes("to_internal_index", SK_TII)
+    emit_prop("tiiOutside", "(timestamp selfNewest oldest period : Int)", prop(h["outside"], COMMON),
               "`to_internal_index`: the (normalised) timestamp is outside the range")
-    expect(find_method(buf, "OrderedRingBuffer", "wrap", like=[SK_WRAP]), {}, [SK_WRAP], "wrap")
+    holes("wrap", SK_WRAP)
 
     # ---- window
-    fn = find_method(buf, "OrderedRingBuffer", "window", like=[SK_WINDOW])
-    body = strip_doc(fn)
-    try:
-        assigns = [s for s in body if isinstance(s, ast.Assign)]
-        cs = next(s for s in assigns if ast.unparse(s.targets[0]) == "start")
-        ce = next(s for s in assigns if ast.unparse(s.targets[0]) == "end")
-        empty = _if_tests(body)[4]
-        fill_call = _if_tests(body)[5].body[0].value
-        origin = fill_call.args[2]
-        holes = {id(cs.value): "clamp_s", id(ce.value): "clamp_e", id(empty.test): "empty", id(origin): "origin"}
-    except (AttributeError, IndexError, StopIteration) as e:
-        raise Bad(f"window: unexpected shape ({e})") from e
-    expect(fn, holes, [SK_WINDOW], "window")
+    h = holes("window", SK_WINDOW)
     wn = {**COMMON, "start": "start", "end": "end_", "self.oldest_timestamp": "oldestTs", "self.newest_timestamp": "newestTs",
           "self.normalize_timestamp(start)": "nstart", "self.normalize_timestamp(end)": "nend"}
-    emit_int("winClampStart", "(start oldestTs : Int)", tr(cs.value, wn), "`window`: start clamped to the covered range")
-    emit_int("winClampEnd", "(end_ newestTs period : Int)", tr(ce.value, wn), "`window`: end clamped to the covered range")
-    emit_prop("winEmpty", "(start end_ nstart nend : Int)", prop(empty.test, wn),
+    emit_int("winClampStart", "(start oldestTs : Int)", tr(h["clamp_s"], wn), "`window`: start clamped to the covered range")
+    emit_int("winClampEnd", "(end_ newestTs period : Int)", tr(h["clamp_e"], wn), "`window`: end clamped to the covered range")
+    # (in the normal form the non-empty case is the `if` branch: the recorded test is the negation)
+    emit_prop("winEmpty", "(start end_ nstart nend : Int)", prop(negate(h["nonempty"]), wn),
               "`window`: nothing to return (`nstart`/`nend` = the clamped bounds normalised onto the slot grid)")
-    emit_int("winFillOrigin", "(start nstart : Int)", tr(origin, wn), "`window`: timestamp of element 0 handed to `_fill_gaps`")
-    expect(find_method(buf, "OrderedRingBuffer", "_to_covered_indices", like=[SK_COVERED_IDX]), {}, [SK_COVERED_IDX], "_to_covered_indices")
-    expect(find_method(buf, "OrderedRingBuffer", "get_timestamp", like=[SK_GET_TS]), {}, [SK_GET_TS], "get_timestamp")
-    expect(find_method(buf, "OrderedRingBuffer", "_wrapped_buffer_window", like=[SK_WRAPPED]), {}, [SK_WRAPPED], "_wrapped_buffer_window")
+    emit_int("winFillOrigin", "(start nstart : Int)", tr(h["origin"], wn), "`window`: timestamp of element 0 handed to `_fill_gaps`")
+    holes("_to_covered_indices", SK_COVERED_IDX)
+    holes("get_timestamp", SK_GET_TS)
+    holes("_wrapped_buffer_window", SK_WRAPPED)
 
     # ---- _fill_gaps
-    fn = find_method(buf, "OrderedRingBuffer", "_fill_gaps", like=[SK_FILL])
-    try:
-        loop = next(s for s in strip_doc(fn) if isinstance(s, ast.For))
-        first = lambda name: next(x.value for x in loop.body  # noqa: E731
-                                  if isinstance(x, ast.Assign) and ast.unparse(x.targets[0]) == name)
-        si, ei = first("start_index"), first("end_index")
-    except (AttributeError, IndexError, StopIteration) as e:
-        raise Bad(f"_fill_gaps: unexpected shape ({e})") from e
-    expect(fn, {id(si): "si", id(ei): "ei"}, [SK_FILL], "_fill_gaps")
+    h = holes("_fill_gaps", SK_FILL)
     fg = {**COMMON, "gap.start": "gapStart", "gap.end": "gapEnd", "oldest_timestamp": "origin"}
-    emit_int("fgStartIndex", "(gapStart origin period : Int)", tr(si, fg), "`_fill_gaps`: first filled index (before clamping to 0)")
-    emit_int("fgEndIndex", "(gapEnd origin period : Int)", tr(ei, fg), "`_fill_gaps`: end of the filled range (before clamping to len)")
+    emit_int("fgStartIndex", "(gapStart origin period : Int)", tr(h["si"], fg), "`_fill_gaps`: first filled index (before clamping to 0)")
+    emit_int("fgEndIndex", "(gapEnd origin period : Int)", tr(h["ei"], fg), "`_fill_gaps`: end of the filled range (before clamping to len)")
 
     # ---- oldest/newest_timestamp, covered range, counts
-    expect(find_method(buf, "OrderedRingBuffer", "oldest_timestamp", like=[SK_OLDEST_TS]), {}, [SK_OLDEST_TS], "oldest_timestamp")
-    expect(find_method(buf, "OrderedRingBuffer", "newest_timestamp", like=[SK_NEWEST_TS]), {}, [SK_NEWEST_TS], "newest_timestamp")
-    expect(find_method(buf, "OrderedRingBuffer", "_covered_time_range", like=[SK_COVERED_RANGE]), {}, [SK_COVERED_RANGE], "_covered_time_range")
-    fn = find_method(buf, "OrderedRingBuffer", "count_covered", like=[SK_COUNT_COVERED])
-    ret = strip_doc(fn)[-1]
-    if not isinstance(ret, ast.Return) or ret.value is None:
-        raise Bad("count_covered: return")
-    expect(fn, {id(ret.value): "q"}, [SK_COUNT_COVERED], "count_covered")
-    q = ast.unparse(ret.value)
+    holes("oldest_timestamp", SK_OLDEST_TS)
+    holes("newest_timestamp", SK_NEWEST_TS)
+    holes("_covered_time_range", SK_COVERED_RANGE)
+    q = ast.unparse(holes("count_covered", SK_COUNT_COVERED)["q"])
     if q == "self._covered_time_range() // self._sampling_period":
         exact = "true"
     elif q == "int(self._covered_time_range().total_seconds() // self._sampling_period.total_seconds())":
@@ -259,45 +232,20 @@ def generate(repo: pathlib.Path) -> str:  # noqa: C901  (one linear recipe)
                f"def countCoveredExact : Bool := {exact}\n")
     emit_int("countCoveredQuot", "(covered period : Int)", "(covered / period)", "`count_covered` in exact arithmetic")
 
-    fn = find_method(buf, "OrderedRingBuffer", "count_valid", like=[SK_COUNT_VALID])
-    body = strip_doc(fn)
-    try:
-        gen = next(s for s in body if isinstance(s, ast.Assign)
-                   and ast.unparse(s.targets[0]) == "sum_missing_entries").value.args[1].args[0]  # max(0, sum(<gen>))
-        length = gen.elt
-        ret_wrapped = _if_tests(body)[1].body[0].value
-        ret_straight = body[-1].value  # type: ignore[attr-defined]
-    except (AttributeError, IndexError, StopIteration) as e:
-        raise Bad(f"count_valid: unexpected shape ({e})") from e
-    expect(fn, {id(length): "len", id(ret_wrapped): "wrapped", id(ret_straight): "straight"}, [SK_COUNT_VALID], "count_valid")
+    h = holes("count_valid", SK_COUNT_VALID)
     cv = {**COMMON, "gap.start": "gapStart", "gap.end": "gapEnd", "len(self._buffer)": "cap", "start_pos": "startPos",
           "end_pos": "endPos", "sum_missing_entries": "missing"}
-    emit_int("cvGapLen", "(gapStart gapEnd oldest period : Int)", tr(length, cv), "`count_valid`: slots of one gap inside the window")
-    emit_int("cvWrapped", "(cap startPos endPos missing : Int)", tr(ret_wrapped, cv), "`count_valid` when `end_pos < start_pos`")
-    emit_int("cvStraight", "(cap startPos endPos missing : Int)", tr(ret_straight, cv), "`count_valid` otherwise")
+    emit_int("cvGapLen", "(gapStart gapEnd oldest period : Int)", tr(h["len"], cv), "`count_valid`: slots of one gap inside the window")
+    emit_int("cvWrapped", "(cap startPos endPos missing : Int)", tr(h["wrapped"], cv), "`count_valid` when `end_pos < start_pos`")
+    emit_int("cvStraight", "(cap startPos endPos missing : Int)", tr(h["straight"], cv), "`count_valid` otherwise")
 
     # ---- MovingWindow.at
-    fn = find_method(mw, "MovingWindow", "at", like=[SK_AT_PINNED, SK_AT_FIXED])
-    body = strip_doc(fn)
-    try:
-        if_dt = _if_tests(body)[1]
-        ts_out = _if_tests(if_dt.body)[0].test
-        holes = {id(ts_out): "ts_out"}
-        idx_out = None
-        if if_dt.orelse and isinstance(if_dt.orelse[0], ast.If):
-            inner_ifs = _if_tests(if_dt.orelse[0].body)
-            if inner_ifs:
-                idx_out = inner_ifs[0].test
-                holes[id(idx_out)] = "idx_out"
-    except (AttributeError, IndexError) as e:
-        raise Bad(f"MovingWindow.at: unexpected shape ({e})") from e
-    variant = expect(fn, holes, [SK_AT_PINNED, SK_AT_FIXED], "MovingWindow.at")
+    variant, h = match(find_method(mw, "MovingWindow", "at"), [SK_AT_PINNED, SK_AT_FIXED], "MovingWindow.at")
     at = {"key": "key", "self._buffer.oldest_timestamp": "oldestTs", "self._buffer.newest_timestamp": "newestTs",
           "count_covered": "countCovered"}
-    emit_prop("atTsOutOfRange", "(key oldestTs newestTs : Int)", prop(ts_out, at), "`MovingWindow.at(datetime)`: IndexError")
+    emit_prop("atTsOutOfRange", "(key oldestTs newestTs : Int)", prop(h["ts_out"], at), "`MovingWindow.at(datetime)`: IndexError")
     if variant == 1:
-        assert idx_out is not None
-        emit_prop("atIndexOutOfRange", "(key countCovered : Int)", prop(idx_out, at), "`MovingWindow.at(int)`: IndexError")
+        emit_prop("atIndexOutOfRange", "(key countCovered : Int)", prop(h["idx_out"], at), "`MovingWindow.at(int)`: IndexError")
         out.append("/-- `MovingWindow.at` returns NaN for a slot inside a gap. -/\ndef atNanOnGap : Bool := true\n")
     else:
         emit_prop("atIndexOutOfRange", "(key countCovered : Int)", "False",
